@@ -2,10 +2,11 @@
 import QExPy.Driver.Json
 import QExPy.Driver.Expr
 import QExPy.Driver.Settings
+import QExPy.Driver.Printing
 namespace QExPy.Drv
 open Lean
 
 def allCmds : List (String × (Json → R Json)) :=
-  exprCmds ++ settingsCmds
+  exprCmds ++ settingsCmds ++ printingCmds
 
 end QExPy.Drv
